@@ -36,7 +36,12 @@ def carried_locals(fn, loop):
                     lhs_ids.add(x["id"])
         # compound assignments / increments read their own target: accumulators and counters are loop-carried by design
         if any(n_.get("k") in ("CompoundAssignOperator", "UnaryOperator") for n_ in info["all"]):
-            reads = [n_["ch"][0] for n_ in info["all"] if n_.get("k") in ("CompoundAssignOperator", "UnaryOperator")]
+            # ... unless every iteration assigns the variable as a whole before its first compound update (hoisted declaration, proper reset)
+            comp = [n_ for n_ in info["all"] if n_.get("k") in ("CompoundAssignOperator", "UnaryOperator")]
+            start_c = [(body, 0)] if body is not None else None
+            if info["whole"] and start_c is not None and g.search(start_c, blocked=[n_["id"] for n_ in info["whole"]],
+                                                                    targets=[n_["id"] for n_ in comp]) is None:
+                continue
             out.append((info["name"], info["all"][0], None))
             continue
         reads = [n for n in walk(loop["body"]) if n.get("k") == "DeclRefExpr" and n.get("did") == did and n.get("id") not in lhs_ids and n.get("id") in g.pos]
